@@ -487,6 +487,15 @@ def emit(repo, spec):
             mc = re.findall(r"memcpy\s*\(\s*dest\s*,\s*source\s*,\s*([^)]*)\)", body)
             lines.append("Definition %s_memcpy_len (num_elm : Z) : list Z := [%s]." % (
                 fn, "; ".join(P(x, ["num_elm"], env).ternary_all() for x in mc[:1])))
+    if spec.get("plugin"):
+        # property-specific translator kinds: gen/plugins/<name>.py with emit(repo, spec, H) -> list of Coq lines,
+        # H = this module (src, raw, defines, all_enums, ceval, P, func_body, switch_table, table, zlit ...)
+        import importlib.util
+        pp = os.path.join(os.path.dirname(os.path.abspath(__file__)), "plugins", spec["plugin"])
+        sp_ = importlib.util.spec_from_file_location("genplugin_" + spec["module"], pp)
+        mod = importlib.util.module_from_spec(sp_)
+        sp_.loader.exec_module(mod)
+        lines += list(mod.emit(repo, spec, sys.modules[__name__]))
     return "\n".join(lines) + "\n"
 
 
